@@ -31,6 +31,9 @@ def c06On (f : Fld) (op : String) (j : Json) : R Json :=
   | "integrate_seq" => do
       let ds ← strs j "dirs"
       pure (resJ resToJson (integrateSeq f ds))
+  | "mean_seq" => do
+      let ds ← strs j "dirs"
+      pure (resJ resToJson (meanSeq f ds))
   | "sel" => do
       let d ← strOfJson (← fld j "dim")
       pure (resJ meshToJson (sel f.mesh d))
